@@ -32,7 +32,7 @@ allvars == <<vars, tvars>>
 BigBudget == [fail |-> 1000, lost |-> 1000, crash |-> 1000]
 Cnt0 == [scenarios |-> 0, calls |-> 0, gets |-> 0, rets |-> 0, crashes |-> 0, finals |-> 0,
          faults |-> 0, publications |-> 0, skipped |-> 0, invEvals |-> 0, versionsRead |-> 0,
-         conflicts |-> 0, repairs |-> 0]
+         conflicts |-> 0, repairs |-> 0, bareExtGetFinal |-> 0, bareCommits |-> 0]
 
 \* ---- scenario -------------------------------------------------------------------------------------
 ActorSpec(e, a) == LET idx == {i \in 1..Len(e.actors) : e.actors[i].id = a} IN
@@ -184,6 +184,11 @@ DoCall(e) ==
                              !.faults = @ + (IF e.out \in {"fail", "lost"} THEN 1 ELSE 0),
                              !.conflicts = @ + (IF e.out = "exists" THEN 1 ELSE 0),
                              !.repairs = @ + (IF e.op = "copy" /\ e.a \in {3, 5, 9} THEN 1 ELSE 0),
+                             \* a bare writer whose put was rejected finds the version already finalized
+                             !.bareExtGetFinal = @ + (IF e.op = "ext_get" /\ e.cls = "final" /\ e.a \in {1, 2, 4}
+                                                        /\ cfg.op[e.a] = "bare" THEN 1 ELSE 0),
+                             !.bareCommits = @ + (IF e.a \in {1, 2, 4} /\ cfg.op[e.a] = "bare"
+                                                    /\ VisibleIn(obj', ext') # Visible THEN 1 ELSE 0),
                              !.publications = @ + (IF VisibleIn(obj', ext') # Visible THEN 1 ELSE 0)]
   ELSE /\ Mismatch(e, <<"call", e.op, e.cls, e.out, IF e.a \in Actors THEN ac[e.a].pc ELSE "?">>, ToString(e.a))
 
@@ -220,7 +225,12 @@ DoPanic(e) ==
        /\ reported' = reported \cup NewViol /\ UNCHANGED <<skip, scn>> /\ cnt' = Inc(cnt, "rets")
   ELSE Mismatch(e, <<"panic", last.op, last.cls>>, e.at)
 
-PerOK(pv) == /\ pv.co = "ok" /\ pv.scan = "ok" /\ pv.validate = "ok" /\ RowsMatch(pv.rows, pv.v)
+\* pw: the writer a bare manifest names in its config (-1: none): it must be the owner of the content the
+\* model has at that version
+PwOK(pv) == LET c == ContentAt(pv.v)
+                w == IF c \in DOMAIN owner THEN owner[c] ELSE 0 IN
+            IF w # 0 /\ cfg.op[w] = "bare" THEN pv.pw = w ELSE pv.pw = -1
+PerOK(pv) == /\ pv.co = "ok" /\ pv.scan = "ok" /\ pv.validate = "ok" /\ RowsMatch(pv.rows, pv.v) /\ PwOK(pv)
 DoFinal(e) ==
   LET vis == {p[2] : p \in {q \in DOMAIN obj : IsFinal(q)}}
       ok == /\ e.open = "ok"
